@@ -129,3 +129,75 @@ Proof. vm_compute. repeat split. Qed.
 Example C12_refused_example :
   is_pipeline_active (run init [EBoot]) = false /\ st (run init [EBoot]) <> S_gitting.
 Proof. split; [vm_compute; reflexivity | vm_compute; discriminate]. Qed.
+
+(* ---- SOURCE TIE (session 3): the waiter methods of class FSM as translated
+   from pl/state.py of today (Gen/StateGen.v, tools/translate/state2coq.py)
+   are the hand-written functions of Model/Fsm.v used by every theorem above.
+   State abstraction: header of state2coq.py; self.update_trigger() is
+   [trigger_ _ T_update]; [logged] is the ghost log entry of the model. *)
+From DV Require Gen.StateGen Proofs.StateGenEq.
+
+(* FSM.set_submit_info: Priority(priority) or TODO, joined with self.priority *)
+Theorem C12_set_submit_info_is_source : forall s p,
+  StateGen.set_submit_info s p = set_submit_info s p.
+Proof. exact StateGenEq.set_submit_info_eq. Qed.
+Print Assumptions C12_set_submit_info_is_source.
+
+(* FSM.submit_crossroads: which waiter is armed for which priority *)
+Theorem C12_submit_crossroads_is_source : forall s,
+  submit_crossroads s =
+  (if StateGenEq.fires_now s
+   then StateGenEq.logged None true (StateGen.submit_crossroads trigger_ s)
+   else StateGen.submit_crossroads trigger_ s).
+Proof. exact StateGenEq.submit_crossroads_eq. Qed.
+Print Assumptions C12_submit_crossroads_is_source.
+
+(* FSM.wait_for_crew / wait_for_doing / wait_for_todo / wait_for_nothing: which
+   waits an arming releases, and that a poller is started only without a handle *)
+Theorem C12_wait_for_is_source : forall s,
+  StateGen.wait_for_crew s = wait_for_crew s /\
+  StateGen.wait_for_doing s = wait_for_doing s /\
+  StateGen.wait_for_todo s = wait_for_todo s /\
+  wait_for_nothing s = StateGenEq.logged None true (StateGen.wait_for_nothing trigger_ s).
+Proof.
+  intro s. repeat split;
+    [apply StateGenEq.wait_for_crew_eq | apply StateGenEq.wait_for_doing_eq
+    | apply StateGenEq.wait_for_todo_eq | apply StateGenEq.wait_for_nothing_eq].
+Qed.
+Print Assumptions C12_wait_for_is_source.
+
+(* wait_for_X.done: the guard `if self.waiting_on_X(): self.update_trigger()` *)
+Theorem C12_done_is_source : forall k s e, get3 k (handles (ws s)) = Some true ->
+  done_cb s k e =
+  (if get3 k (waits (ws s))
+   then StateGenEq.logged (Some k) (cond_holds k e) (StateGenEq.sg_done k trigger_ s)
+   else StateGenEq.sg_done k trigger_ s).
+Proof. exact StateGenEq.done_eq. Qed.
+Print Assumptions C12_done_is_source.
+
+(* ... and the handle is given back before the guard, whatever it says (repair
+   86b21aa), for any machine whose triggers do not touch the handles *)
+Theorem C12_done_gives_handle_back_is_source :
+  forall k s (fire_ : fstate -> trigger -> fstate * outcome),
+  (forall s' t, get3 k (handles (ws (fst (fire_ s' t)))) = get3 k (handles (ws s'))) ->
+  get3 k (handles (ws (fst (StateGenEq.sg_done k fire_ s)))) = None.
+Proof. exact StateGenEq.done_clears_handle_first. Qed.
+Print Assumptions C12_done_gives_handle_back_is_source.
+
+(* FSM.waiting_on_X and the loop test of is_X_done *)
+Theorem C12_poll_is_source : forall k s e,
+  StateGenEq.sg_waiting_on k s = get3 k (waits (ws s)) /\
+  (get3 k (handles (ws s)) = Some false ->
+   poll s k e = if StateGenEq.sg_continues k s e then (s, Ok)
+                else (set_handle s k (Some true), Ok)).
+Proof. intros k s e. split; [apply StateGenEq.waiting_on_eq | apply StateGenEq.poll_eq]. Qed.
+Print Assumptions C12_poll_is_source.
+
+(* non-vacuity of the three implications *)
+Example C12_source_tie_example :
+  let s := run init [EBoot; Done 0; Done 0; ESubStart 0 None; ESubDone 0 (Some P_TODO)] in
+  get3 KTodo (handles (ws s)) = Some false /\
+  get3 KTodo (handles (ws (fst (poll s KTodo (false, false, false))))) = Some true /\
+  (forall s' t, get3 KTodo (handles (ws (fst ((fun x (_ : trigger) => (x, Ok)) s' t)))) =
+                get3 KTodo (handles (ws s'))).
+Proof. split; [vm_compute; reflexivity | split; [vm_compute; reflexivity | reflexivity]]. Qed.
